@@ -28,6 +28,7 @@ pub type JwkThumbprintSha256 = [u8; SHA256_LEN];
 ///
 /// [More Info](https://tools.ietf.org/html/rfc7517#section-4)
 #[derive(Clone, Debug, PartialEq, Eq, serde::Deserialize, serde::Serialize)]
+#[serde(try_from = "UncheckedJwk")]
 pub struct Jwk {
   /// Key Type.
   ///
@@ -99,6 +100,48 @@ pub struct Jwk {
   /// [More Info](https://tools.ietf.org/html/rfc7517#section-4)
   #[serde(flatten)]
   pub(super) params: JwkParams,
+}
+
+/// The members of a [`Jwk`] as they are deserialized, before the key type is checked against the key parameters.
+///
+/// The parameters are an untagged enum: the variant is chosen by the members that are present, independently of `kty`.
+#[derive(serde::Deserialize)]
+struct UncheckedJwk {
+  kty: JwkType,
+  #[serde(rename = "use")]
+  use_: Option<JwkUse>,
+  key_ops: Option<Vec<JwkOperation>>,
+  alg: Option<String>,
+  kid: Option<String>,
+  x5u: Option<Url>,
+  x5c: Option<Vec<String>>,
+  x5t: Option<String>,
+  #[serde(rename = "x5t#S256")]
+  x5t_s256: Option<String>,
+  #[serde(flatten)]
+  params: JwkParams,
+}
+
+impl TryFrom<UncheckedJwk> for Jwk {
+  type Error = Error;
+
+  fn try_from(value: UncheckedJwk) -> Result<Self> {
+    if value.kty != value.params.kty() {
+      return Err(Error::InvalidParam("`kty` does not match the type of the key parameters"));
+    }
+    Ok(Self {
+      kty: value.kty,
+      use_: value.use_,
+      key_ops: value.key_ops,
+      alg: value.alg,
+      kid: value.kid,
+      x5u: value.x5u,
+      x5c: value.x5c,
+      x5t: value.x5t,
+      x5t_s256: value.x5t_s256,
+      params: value.params,
+    })
+  }
 }
 
 impl Jwk {
